@@ -72,6 +72,64 @@ def grid_roundtrip_unit(mod, clsname, hole, json_leg):
     return unit
 
 
+def cartesian_roundtrip_unit(periodic_form, json_leg, dim=3):
+    """CartesianGrid with `dim` axes through the real __init__ / state / from_state / __eq__; bounds, shape and periodic
+    flags symbolic; `periodic` given as a list or as a tuple.  Contracts (assumed): Cuboid.from_bounds keeps the
+    bounds it is given (corners = lower / upper bounds, bounds = pairs), CartesianCoordinates only carries `dim`."""
+    def unit(U):
+        def body(it):
+            cls = it.module_attr(it.load_module("pde.grids.cartesian"), "CartesianGrid")
+            lo = [z3.Real(f"lo{a}") for a in range(dim)]
+            hi = [z3.Real(f"hi{a}") for a in range(dim)]
+            N = [z3.Int(f"N{a}") for a in range(dim)]
+            per = [z3.Bool(f"periodic{a}") for a in range(dim)]
+            for a in range(dim):
+                it.ctx.assume(z3.And(hi[a] > lo[a], N[a] >= 1))
+
+            def from_bounds(interp, args, kw):
+                b = args[-1] if not isinstance(args[0], NDArr) else args[0]
+                los = [b.read((a, 0)) for a in range(dim)]
+                his = [b.read((a, 1)) for a in range(dim)]
+                from ..arrays import array_from_nested
+                return Instance(None, {"dim": dim, "corners": (array_from_nested(los), array_from_nested(his)), "bounds": tuple((los[a], his[a]) for a in range(dim)), "__closed__": True}, name="Cuboid")
+
+            it.contracts[("pde.tools.cuboid", "Cuboid.from_bounds")] = from_bounds
+            it.overrides["CartesianCoordinates"] = lambda dim=None: Instance(None, {"dim": dim, "axes": ["x", "y", "z"][:dim], "__closed__": True}, name="CartesianCoordinates")
+            periodic = tuple(per) if periodic_form == "tuple" else list(per)
+            g = it.instantiate(cls, [[(lo[a], hi[a]) for a in range(dim)], list(N)], {"periodic": periodic})
+            state = it.getattr(g, "state")
+            if json_leg:
+                def jsonify(v):
+                    if isinstance(v, (tuple, list)):
+                        return [jsonify(x) for x in v]
+                    return v
+                state = {k: jsonify(v) for k, v in state.items()}
+            g2 = it.call(it.getattr(cls, "from_state"), [state], {})
+            same = it.call(it.getattr(g, "__eq__"), [g2], {})
+            return g, g2, cls, same, per
+
+        for p, res in enumerate(explore_paths(U, body)):
+            P = prem_of(res.ctx)
+            nm = f"path{p}"
+            if res.outcome != "return":
+                U.prove(f"{nm}.round_trip_returns_normally", P, z3.BoolVal(False), info={"exc": str(res.exc)})
+                continue
+            g, g2, cls, same, per = res.value
+            U.prove(f"{nm}.same_class", P, z3.BoolVal(isinstance(g2, Instance) and g2.cls is cls))
+            U.prove(f"{nm}.restored_grid_equals_the_original", P, to_z3(same) if not isinstance(same, bool) else z3.BoolVal(same),
+                    info={"witness": "GridBase.__eq__ of the original and the grid rebuilt from its state"})
+            b1, b2 = g.attrs["_axes_bounds"], g2.attrs.get("_axes_bounds", ())
+            U.prove(f"{nm}.same_number_of_axes", P, z3.BoolVal(len(b1) == len(b2) == dim))
+            for a in range(min(len(b1), len(b2))):
+                U.prove(f"{nm}.axis{a}.bounds_identical", P, z3.And(_scalar(b1[a][0]) == _scalar(b2[a][0]), _scalar(b1[a][1]) == _scalar(b2[a][1])))
+            s1, s2 = g.attrs["_shape"], g2.attrs.get("_shape", ())
+            U.prove(f"{nm}.shape_identical", P, z3.And(z3.BoolVal(len(s1) == len(s2)), *[to_z3(x) == to_z3(y) for x, y in zip(s1, s2)]))
+            p1, p2 = g.attrs.get("_periodic", ()), g2.attrs.get("_periodic", ())
+            U.prove(f"{nm}.periodicity_identical_per_axis", P, z3.And(z3.BoolVal(len(p1) == len(p2) == dim), *[_scalar(x) == y for x, y in zip(p2, per)], *[_scalar(x) == y for x, y in zip(p1, per)]))
+
+    return unit
+
+
 def from_data_unit(with_ghost):
     def unit(U):
         def body(it):
@@ -125,6 +183,9 @@ for _mod, _cls in (("pde.grids.cylindrical", "CylindricalSymGrid"), ("pde.grids.
     for _hole in (False, True):
         for _json in (False, True):
             UNITS.append((f"{_cls}.state_roundtrip[hole={_hole},json={_json}]", grid_roundtrip_unit(_mod, _cls, _hole, _json)))
+for _form in ("list", "tuple"):
+    for _json in (False, True):
+        UNITS.append((f"CartesianGrid.state_roundtrip[3 axes,periodic={_form},json={_json}]", cartesian_roundtrip_unit(_form, _json)))
 UNITS.append(("FieldCollection.from_data", from_data_unit(True)))
 
 
@@ -141,4 +202,4 @@ def bounded(tier, seed):
 
 TRUSTED = ["GridBase.__init__ (axes bookkeeping) replaced by a no-op in the symbolic runs", "JSON maps tuples to lists and is the identity on finite floats, ints, bools, strings"]
 ASSUMPTIONS = ["equal bounds/shape/periodicity give equal coordinates and cell volumes (C12 discretize_interval, C05 cell volumes)"]
-NOT_COVERED = ["CartesianGrid / UnitGrid constructors (np.array argument normalisation), copy/deepcopy/pickle, field attributes (un)serialisation, storage field_attributes: bounded native check only"]
+NOT_COVERED = ["UnitGrid constructor, CartesianGrid with bounds given as upper limits only (np.squeeze branch), copy/deepcopy/pickle, field attributes (un)serialisation, storage field_attributes: bounded native check only"]
